@@ -68,6 +68,8 @@ SPEC_NAMES = {
     "truthy",
     "no_ctl_chars",
     "get_truthy",
+    "tokens_have_upgrade",
+    "has_header",
 }
 
 
@@ -456,3 +458,25 @@ class SpecMixin:
     def sp_truthy_value(self, v):
         t = ops.truth(self.ctx, v)
         return t if isinstance(t, bool) else mk_bool(t)
+
+    def sp_tokens_have_upgrade(self, e, fr):
+        """tokens_have_upgrade(tokens): uninterpreted 'some token lower-cases to upgrade' -- the same
+        term the code's any(...) over that list is bound to (see quantify_genexp)"""
+        v = self.ev(e.args[0], fr)
+        if isinstance(v, SymOpt):
+            v = v.value
+        seq = ops.to_seq(self.ctx, v)
+        f = z3.Function("any_over", seq.e.sort(), z3.BoolSort())
+        return mk_bool(f(seq.e))
+
+    def sp_has_header(self, e, fr):
+        """has_header(headers, b'name'): uninterpreted 'some header has this (lower-cased) name'"""
+        from .sym import str_to_z3
+
+        v = self.ev(e.args[0], fr)
+        name = self.ev(e.args[1], fr)
+        seq = ops.to_seq(self.ctx, v) if not (isinstance(v, PList) and v.sym is None and not v.items) else None
+        if seq is None:
+            return False
+        f = z3.Function("has_header", seq.e.sort(), z3.StringSort(), z3.BoolSort())
+        return mk_bool(f(seq.e, str_to_z3(name)))
